@@ -212,3 +212,67 @@ pub fn note_rows(conn: &Connection, accounts: &[AccountUuid]) -> Vec<DbNoteRow> 
     rows.sort();
     rows
 }
+
+/// Canonical dump of every table (from `sqlite_schema`): table -> sorted rendered rows.
+pub type Dump = BTreeMap<String, Vec<String>>;
+
+fn render(v: rusqlite::types::ValueRef<'_>) -> String {
+    use rusqlite::types::ValueRef::*;
+    match v {
+        Null => "NULL".to_string(),
+        Integer(i) => i.to_string(),
+        Real(f) => format!("{f:?}"),
+        Text(t) => format!("'{}'", String::from_utf8_lossy(t)),
+        Blob(b) => format!("x'{}'", hex::encode(b)),
+    }
+}
+
+pub fn dump_db(conn: &Connection) -> Dump {
+    let mut out = Dump::new();
+    let tables: Vec<String> = {
+        let mut st = conn.prepare("SELECT name FROM sqlite_schema WHERE type = 'table' AND name NOT LIKE 'sqlite_stat%' ORDER BY name").expect("schema");
+        let rows = st.query_map([], |r| r.get::<_, String>(0)).expect("q");
+        rows.map(|r| r.expect("row")).collect()
+    };
+    for t in tables {
+        let mut st = match conn.prepare(&format!("SELECT * FROM \"{t}\"")) {
+            Ok(s) => s,
+            Err(_) => continue, // virtual tables without a module etc.
+        };
+        let n = st.column_count();
+        let mut rows: Vec<String> = vec![];
+        let mut q = st.query([]).expect("query");
+        while let Some(r) = q.next().expect("row") {
+            let cols: Vec<String> = (0..n).map(|i| render(r.get_ref(i).expect("col"))).collect();
+            rows.push(cols.join("|"));
+        }
+        rows.sort();
+        out.insert(t, rows);
+    }
+    out
+}
+
+pub fn diff_dump(a: &Dump, b: &Dump) -> String {
+    let mut s = String::new();
+    for (t, ra) in a {
+        let rb = b.get(t).cloned().unwrap_or_default();
+        if *ra != rb {
+            let sa: std::collections::BTreeSet<_> = ra.iter().collect();
+            let sb: std::collections::BTreeSet<_> = rb.iter().collect();
+            s.push_str(&format!(
+                "[{t}: -{:?} +{:?}] ",
+                sa.difference(&sb).take(2).map(|x| x.chars().take(160).collect::<String>()).collect::<Vec<_>>(),
+                sb.difference(&sa).take(2).map(|x| x.chars().take(160).collect::<String>()).collect::<Vec<_>>()
+            ));
+        }
+    }
+    for t in b.keys() {
+        if !a.contains_key(t) {
+            s.push_str(&format!("[new table {t}] "));
+        }
+    }
+    if s.len() > 1500 {
+        s.truncate(1500);
+    }
+    s
+}
